@@ -534,3 +534,27 @@ pub fn deep_shapes(f: &mut dyn FnMut(G)) {
     // 40 within-word expressions of two shapes
     f(call(E::Many(Box::new(E::Alt((0..40).map(|i| if i % 2 == 0 { E::Word(vec![lit(&format!("--o{i}=")), E::Alt(vec![lit("y"), lit("n")])]) } else { E::Word(vec![lit(&format!("--o{i}=")), E::r("U")]) }).collect())))));
 }
+
+/// Two within-word expressions written alike that differ only in a literal's description (or
+/// in having one): they are different items for the shells that show descriptions.
+pub fn described_twins(f: &mut dyn FnMut(G)) {
+    let lit = E::lit;
+    let x = |d: Option<&str>| match d {
+        Some(d) => E::litd("x", d),
+        None => lit("x"),
+    };
+    let ds = [None, Some("one"), Some("two")];
+    for d1 in ds {
+        for d2 in ds {
+            if d1 == d2 {
+                continue;
+            }
+            let w1 = E::Word(vec![lit("--a="), E::Alt(vec![x(d1), lit("z")])]);
+            let w2 = E::Word(vec![lit("--a="), E::Alt(vec![x(d2), lit("z")])]);
+            f(call(E::Alt(vec![w1.clone(), E::Seq(vec![lit("y"), w2.clone()])])));
+            f(call(E::Fb(vec![E::Seq(vec![lit("p"), w1.clone()]), E::Seq(vec![lit("q"), w2.clone()])])));
+            f(G { stmts: vec![Stmt::Call { name: CMD.into(), expr: E::Seq(vec![lit("u"), w1.clone()]) }, Stmt::Call { name: CMD.into(), expr: E::Seq(vec![lit("v"), w2.clone()]) }] });
+            f(G { stmts: vec![Stmt::Call { name: CMD.into(), expr: E::Alt(vec![E::r("A"), E::Seq(vec![lit("y"), E::r("B")])]) }, def("A", w1.clone()), def("B", w2.clone())] });
+        }
+    }
+}
